@@ -190,7 +190,24 @@ class RemoteProxy(BaseProxy):
         return self._meta
 
     async def send(self, request: Any) -> Any:
-        return await self._channel.send(request)
+        # The channel only fails the requests that are outstanding at
+        # the moment the connection is closed. If the simulator has
+        # closed its connection before (e.g. its process died while it
+        # was idle), a new request would never be answered. The reader
+        # task ends when the connection is closed, so watch it, too.
+        if not self._reader_task.done():
+            response = asyncio.ensure_future(self._channel.send(request))
+            try:
+                await asyncio.wait(
+                    {response, self._reader_task}, return_when="FIRST_COMPLETED"
+                )
+            except asyncio.CancelledError:
+                response.cancel()
+                raise
+            if response.done():
+                return response.result()
+            response.cancel()
+        raise ConnectionResetError("The simulator has closed its connection.")
 
     async def stop(self) -> None:
         try:
